@@ -28,6 +28,7 @@ RULE = (
     "file save wrote; deep equality of all listed attributes before save and after load; legacy and native loads are equal. Non-trivial = "
     ">= 1 child with >= 1 value and a non-default attribute, or a boundary payload reached the registry; distinct = distinct case JSON."
     ' Round 5: load via own path or explicit argument; earlier saves by the same object, file removed in between, repeated saves; an `overlap` kind (second save while the first is in flight, registry grown meanwhile) on the virtual loop.'
+    ' Round 8: comment-, template- and JSON-looking texts; hash-equal integer changes between two saves.'
 )
 ASSUMPTIONS = [
     "real files in a scratch directory (tmpfs when available), aiofiles and its thread pool unmocked",
